@@ -2,7 +2,6 @@
 package checks
 
 import (
-	"encoding/json"
 	"time"
 
 	"verif/internal/h"
@@ -24,7 +23,7 @@ func register(c *Check) { Registry[c.ID] = c }
 
 // Replayers re-execute one stored case without any explorer; they return the
 // violation found (nil if the case passes now).
-var Replayers = map[string]func(prop string, raw json.RawMessage) *h.Viol{}
+var Replayers = map[string]func(prop string, raw []byte) *h.Viol{}
 
 func init() {
 	register(&Check{ID: "C15", Level: "model_checking", Run: C15, QuickBudget: 60 * time.Second, ThoroughBudget: 15 * time.Minute})
